@@ -11,6 +11,19 @@ def V(i):
 
 
 def gen_rule(rng, items, idgen, depth=1, p_id=0.4):
+    if depth > 0 and rng.random() < 0.12:
+        # a defaulted rule one level down, under a plain connective
+        inner = gen_rule(rng, items, idgen, 0, p_id)
+        if inner["k"] not in ("ccAny", "ccXor"):
+            inner = {"k": rng.choice(["ccAny", "ccXor"]), "id": idgen() if rng.random() < p_id else None,
+                     "args": [V(i) for i in rng.sample(items, min(3, len(items)))]}
+            inner["default"] = [inner["args"][0]["id"]]
+        outer = rng.choice(["AtLeast", "All", "Any", "AtMost"])
+        extra = [V(i) for i in rng.sample(items, rng.randint(0, 1)) if i not in {a["id"] for a in inner["args"]}]
+        node = {"k": outer, "id": idgen() if rng.random() < p_id else None, "args": [inner] + extra}
+        if outer in ("AtLeast", "AtMost"):
+            node["value"] = 1
+        return node
     k = rng.choice(["Any", "ccAny", "Xor", "ccXor", "AtMost", "All", "Imply", "ccAny", "ccXor", "AtLeast"])
     n = rng.randint(2, min(3, len(items)))
     its = rng.sample(items, n)
@@ -114,3 +127,28 @@ def exact_solver_factory(record=None, faults=None):
             record["returned"] = out
         return out
     return solver
+
+
+def config_json(r):
+    """the documented JSON form of a configurator recipe, written by the harness (not by to_json)"""
+    k = r["k"]
+    if k == "var":
+        return {"id": r["id"]} if r["b"] == [0, 1] else {"id": r["id"], "bounds": {"lower": r["b"][0], "upper": r["b"][1]}}
+    d = {}
+    if r.get("id"):
+        d["id"] = r["id"]
+    if k == "Imply":
+        d.update(type="Imply", condition=config_json(r["args"][0]), consequence=config_json(r["args"][1]))
+        return d
+    d["propositions"] = [config_json(a) for a in r["args"]]
+    if k == "Stingy":
+        d["type"] = "StingyConfigurator"
+    elif k in ("ccAny", "ccXor"):
+        d["type"] = "Any" if k == "ccAny" else "Xor"
+        if r.get("default"):
+            d["default"] = [{"id": i} for i in r["default"]]
+    elif k in ("AtLeast", "AtMost"):
+        d.update(type=k, value=r["value"])
+    else:
+        d["type"] = k
+    return d
